@@ -33,7 +33,7 @@ def run(ck, ix, tier):
         t = Tagger(ck, fi, "G-TAG")
         t.run()
         obl += t.n_obl
-    ck.floor("G-TAG", obl, 10, "tag obligations in __eq__/compare")
+    ck.floor("G-TAG", obl, 5, "tag obligations in __eq__/compare")
 
     # ------------------------------------------------------------ __eq__ structure
     eq_zero_rule(ck, ix)
